@@ -305,6 +305,11 @@ func (w *World) snapshot() []*op {
 			o.nth = w.opCount[k]
 			if f := w.findFault(o.actor, o.kind, o.nth); f != nil {
 				o.fault = f
+				if f.Class == "slowfatal" {
+					// the operation blocks for Us and then fails (the caller sits inside it meanwhile)
+					w.stat("fault." + o.kind.String() + ".slowfatal")
+					o.notBefore = o.parkAt + time.Duration(f.Us)*time.Microsecond + 333*time.Nanosecond
+				}
 				if f.Class == "stall" {
 					w.stat("fault." + o.kind.String() + ".stall")
 					w.Fired = append(w.Fired, FiredFault{Actor: o.actor, Op: o.kind.String(), K: o.nth, Class: "stall", At: o.parkAt})
